@@ -110,6 +110,9 @@ pub fn catalogue() -> Vec<Edge> {
     e("o.required_unless_present(a)".into(), Box::new(|c| c.arg_mut("o").unwrap().required_unless.push("a".into())));
     e("a.required_if_eq(o,x)".into(), Box::new(|c| c.arg_mut("a").unwrap().required_if_eq.push(("o".into(), "x".into()))));
     e("b.required_if_eq_any(o=x|o=y)".into(), Box::new(|c| c.arg_mut("b").unwrap().required_if_eq_any = vec![("o".into(), "x".into()), ("o".into(), "y".into())]));
+    // the "any" and the "all" rule on one argument: either one makes it required
+    e("b.required_if_eq_all(o=y&a=true)".into(), Box::new(|c| c.arg_mut("b").unwrap().required_if_eq_all = vec![("o".into(), "y".into()), ("a".into(), "true".into())]));
+    e("c.required_if_eq(o,y)".into(), Box::new(|c| c.arg_mut("c").unwrap().required_if_eq.push(("o".into(), "y".into()))));
     e("c.required_if_eq_all(o=x&a=true)".into(), Box::new(|c| c.arg_mut("c").unwrap().required_if_eq_all = vec![("o".into(), "x".into()), ("a".into(), "true".into())]));
     e("o.default_value(x)".into(), Box::new(|c| c.arg_mut("o").unwrap().default = vec!["x".into()]));
     e("b.env(set to true)".into(), Box::new(|c| c.arg_mut("b").unwrap().env = Some("CLAPMC_TRUE".into())));
